@@ -162,8 +162,9 @@ def print_assumptions(prop_file, names):
     return res
 
 # ---------------------------------------------------------------------------
-def build_harness(model):
-    hb = os.path.join(WORK, 'harness')
+def build_harness(model, variant='', extra_flags=()):
+    """variant '' : the correspondence harness; 'fbe': the same sources with the big-endian helper branch forced"""
+    hb = os.path.join(WORK, 'harness' + ('_' + variant if variant else ''))
     os.makedirs(hb, exist_ok=True)
     gen_harness.generate(model, hb)
     srcs = gen_tables.lib_sources() + sorted(glob.glob(os.path.join(hb, 'disp_*.c'))) + \
@@ -173,7 +174,7 @@ def build_harness(model):
     errs = []
     def compile_one(s):
         o = os.path.join(hb, re.sub(r'[^A-Za-z0-9]', '_', os.path.relpath(s, '/')) + '.o')
-        r = sh(['gcc'] + HARNESS_CFLAGS + ['-DCOVESA_OPEN1722_VERIF', '-I' + INC, '-I' + os.path.join(TOOLS, 'harness'),
+        r = sh(['gcc'] + HARNESS_CFLAGS + list(extra_flags) + ['-DCOVESA_OPEN1722_VERIF', '-I' + INC, '-I' + os.path.join(TOOLS, 'harness'),
                 '-I' + hb, '-c', s, '-o', o], timeout=300)
         if r.returncode != 0:
             errs.append('%s:\n%s' % (s, r.stderr.decode(errors='replace')[:3000]))
@@ -259,6 +260,10 @@ def prepare(force=False):
             except Exception as e:
                 ctx['errors'].append(str(e)); ctx['hx'] = ''
             try:
+                ctx['hx_fbe'] = build_harness(model, 'fbe', ['-D__BYTE_ORDER__=__ORDER_BIG_ENDIAN__']) if model else ''
+            except Exception as e:
+                ctx['errors'].append(str(e)); ctx['hx_fbe'] = ''
+            try:
                 ctx['hbe'] = build_hbe()
             except Exception as e:
                 ctx['errors'].append(str(e)); ctx['hbe'] = ''
@@ -330,7 +335,7 @@ def theorem_end_line(vfile, name):
 SAN_RE = re.compile(r'(ERROR: AddressSanitizer: [a-z\-]+|runtime error: [^\n]*|ERROR: LeakSanitizer[^\n]*|AddressSanitizer:DEADLYSIGNAL|SEGV[^\n]*)')
 LOC_RE = re.compile(r'(/repo/[A-Za-z0-9_/\.\-]+:\d+)')
 
-def run_harness(ctx, lines, env_extra=None, timeout=600):
+def run_harness(ctx, lines, env_extra=None, timeout=600, exe=None):
     """feed command lines to the C harness; returns one output string per line.
     A sanitizer abort or crash yields 'CRASH <kind> <site>' for the offending line and the run resumes after it."""
     out = []
@@ -343,7 +348,7 @@ def run_harness(ctx, lines, env_extra=None, timeout=600):
     while i < len(lines):
         chunk = lines[i:i + 150]        # blocks: after a crash only the rest of the block is fed again
         try:
-            r = sh([ctx['hx']], inp=('\n'.join(chunk) + '\n').encode(), env=env, timeout=timeout)
+            r = sh([exe or ctx['hx']], inp=('\n'.join(chunk) + '\n').encode(), env=env, timeout=timeout)
             raw = r.stdout.decode(errors='replace')
             err = r.stderr.decode(errors='replace')
             rc = r.returncode
@@ -364,8 +369,11 @@ def run_harness(ctx, lines, env_extra=None, timeout=600):
             i += 1
     return out
 
-def run_oracle(ctx, lines, timeout=900):
-    r = sh([ctx['oracle']], inp=('\n'.join(lines) + '\n').encode(), timeout=timeout)
+def run_oracle(ctx, lines, timeout=900, fbe=False):
+    env = dict(os.environ)
+    if fbe:
+        env['ORACLE_HELPERS'] = 'BE'
+    r = sh([ctx['oracle']], inp=('\n'.join(lines) + '\n').encode(), timeout=timeout, env=env)
     got = r.stdout.decode(errors='replace').split('\n')
     if got and got[-1] == '':
         got.pop()
